@@ -3,12 +3,16 @@
 (* The documented match grammar as a generator of component trees and of   *)
 (* their token sequences, plus the layout of components inside the match   *)
 (* part (C17).  csvpath/matching/lark_parser.py GRAMMAR:                    *)
-(*   expression: left (WHEN action)? | equality (WHEN action)?             *)
-(*             | assignment | COMMENT                                      *)
+(*   expression: left (WHEN action)? | REFERENCE (WHEN action)?            *)
+(*             | equality (WHEN action)? | assignment | COMMENT            *)
 (*   action: function | assignment        left: HEADER | VARIABLE | function *)
-(*   assignment: VARIABLE "=" (left | term)                                *)
-(*   equality:   left "==" (left | term)                                   *)
-(*   function: NAME "(" [a ("," a)*] ")"   a: term|VARIABLE|HEADER|function|equality *)
+(*   assignment: VARIABLE "=" (left | REFERENCE | term)                    *)
+(*   equality:   left "==" (left | REFERENCE | term)                       *)
+(*   function: NAME "(" [a ("," a)*] ")"                                   *)
+(*             a: term|VARIABLE|HEADER|function|equality|REFERENCE         *)
+(* A reference is a component of its own (an existence test), the left of  *)
+(* a when/do, the right of = and ==, and a function argument; it is never  *)
+(* the left of = or ==.                                                    *)
 (* A tree node is [k, tok, args]: k the kind, tok the token text of a leaf  *)
 (* or the (qualified) function name, args the children in source order.    *)
 (***************************************************************************)
@@ -24,6 +28,8 @@ Vars == IF Small THEN {N("var", "@v.k", <<>>)}
         ELSE {N("var", "@v", <<>>), N("var", "@v.k", <<>>), N("var", "@w.onchange.nocontrib", <<>>)}
 Terms == IF Small THEN {N("term", "\"s t\"", <<>>), N("term", "-2", <<>>), N("term", "/a.b/", <<>>)}
          ELSE {N("term", "\"s t\"", <<>>), N("term", "5", <<>>), N("term", "-2", <<>>), N("term", "1.5", <<>>), N("term", "/a.b/", <<>>)}
+Refs == IF Small THEN {N("ref", "$p.variables.x.k", <<>>)}
+        ELSE {N("ref", "$p.variables.x.k", <<>>), N("ref", "$p.headers.h", <<>>), N("ref", "$p.metadata.m", <<>>)}
 \* function lexicon: name (with qualifiers) and arity
 Fn0 == {"yes", "count.onmatch"}
 Fn1 == IF Small THEN {"not", "count.nm"} ELSE {"not", "length", "count.nm"}
@@ -38,19 +44,19 @@ Fns(d) == {N("fn", f, <<>>) : f \in Fn0} \cup
                 \cup {N("fn", f, <<a, b>>) : f \in Fn2, a \in Args(d - 1), b \in Args(d - 1)}
                 \cup (IF d = 1 THEN {N("fn", f, <<a, b, c>>) : f \in Fn3, a \in Args(0), b \in Args(0), c \in Args(0)} ELSE {}))
 Lefts(d) == Leafs \cup Fns(d)
-Eqs(d) == IF d = 0 THEN {} ELSE {N("eq", "==", <<l, r>>) : l \in Lefts(d - 1), r \in Lefts(d - 1) \cup Terms}
-Args(d) == Terms \cup Leafs \cup Fns(d) \cup Eqs(d)
-Asgs == {N("assign", "=", <<v, r>>) : v \in Vars, r \in Lefts(1) \cup Terms}
-Actions == Fns(1) \cup {N("assign", "=", <<v, r>>) : v \in Vars, r \in Leafs \cup Terms}
-Whens == {N("when", "->", <<l, a>>) : l \in Lefts(0) \cup Eqs(1), a \in {x \in Actions : x.k = "assign" \/ Len(x.args) <= 1}}
-Exprs == Lefts(Depth) \cup Eqs(Depth) \cup Asgs \cup Whens
+Eqs(d) == IF d = 0 THEN {} ELSE {N("eq", "==", <<l, r>>) : l \in Lefts(d - 1), r \in Lefts(d - 1) \cup Terms \cup Refs}
+Args(d) == Terms \cup Leafs \cup Fns(d) \cup Eqs(d) \cup Refs
+Asgs == {N("assign", "=", <<v, r>>) : v \in Vars, r \in Lefts(1) \cup Terms \cup Refs}
+Actions == Fns(1) \cup {N("assign", "=", <<v, r>>) : v \in Vars, r \in Leafs \cup Terms \cup Refs}
+Whens == {N("when", "->", <<l, a>>) : l \in Lefts(0) \cup Eqs(1) \cup Refs, a \in {x \in Actions : x.k = "assign" \/ Len(x.args) <= 1}}
+Exprs == Lefts(Depth) \cup Eqs(Depth) \cup Asgs \cup Whens \cup Refs
 
 \* the token sequence of a tree (tokens inside a component are separated by one blank when written)
 RECURSIVE Toks(_), ToksList(_)
 ToksList(as) == IF as = <<>> THEN <<>>
                 ELSE IF Len(as) = 1 THEN Toks(as[1])
                 ELSE Toks(as[1]) \o <<",">> \o ToksList(Tail(as))
-Toks(n) == CASE n.k \in {"hdr", "var", "term"} -> <<n.tok>>
+Toks(n) == CASE n.k \in {"hdr", "var", "term", "ref"} -> <<n.tok>>
              [] n.k = "fn" -> <<n.tok, "(">> \o ToksList(n.args) \o <<")">>
              [] OTHER -> Toks(n.args[1]) \o <<n.tok>> \o Toks(n.args[2])
 
